@@ -17,6 +17,11 @@ impl<T> Vec<T> {
     pub fn as_slice(&self) -> &[T] { unsafe { std::slice::from_raw_parts(self.items.as_ptr() as *const T, self.len) } }
     pub fn as_mut_slice(&mut self) -> &mut [T] { unsafe { std::slice::from_raw_parts_mut(self.items.as_mut_ptr() as *mut T, self.len) } }
     pub fn clear(&mut self) { self.len = 0; }
+    pub fn insert(&mut self, index: usize, x: T) {
+        assert!(self.len < VCAP, "env/vec_fixed.rs: capacity exceeded"); assert!(index <= self.len, "insertion index out of bounds");
+        let mut i = self.len; while i > index { self.items[i] = std::mem::replace(&mut self.items[i - 1], MaybeUninit::uninit()); i -= 1; }
+        self.items[index] = MaybeUninit::new(x); self.len += 1;
+    }
     pub fn extend<I: IntoIterator<Item = T>>(&mut self, it: I) { for x in it { self.push(x); } }
     /// stand-in for std's slice sort (insertion sort; std's sort does not finish in CBMC on a symbolic length)
     pub fn sort(&mut self) where T: Ord { let n = self.len; let s = self.as_mut_slice(); let mut i = 1; while i < n { let mut j = i; while j > 0 && s[j - 1] > s[j] { s.swap(j - 1, j); j -= 1; } i += 1; } }
